@@ -391,7 +391,7 @@ def explore(h, tier, seed, pool, nworkers, log=print):
             nb = 1 if len(pending) < nworkers * 2 else min(8, len(pending) // (nworkers * 2) + 1)
             pf = [pending.pop() for _ in range(min(nb, len(pending)))]
             bs = 2.0 if tot["paths"] < 200 else 6.0
-            task = (h.name, tier, pf, 40, bs, selfcheck_rate, seed)
+            task = (h.name, tier, pf, 40, bs, 1.0 if tot["paths"] < 60 else selfcheck_rate, seed)
             inflight.append(pool.apply_async(_work, (task,)))
         if budget_hit is not None and not inflight:
             break
